@@ -119,7 +119,15 @@ pub fn output_tokens(
     let method_items = out_trait
         .fns
         .iter()
-        .map(|trait_fn| gen_delegation_method(trait_fn, generic_idents, &attr, contains_async));
+        .map(|trait_fn| {
+            gen_delegation_method(
+                trait_fn,
+                generic_idents,
+                &attr,
+                contains_async,
+                quote! { #trait_ident #args },
+            )
+        });
 
     let out = quote! {
         #trait_def
@@ -302,6 +310,7 @@ fn gen_delegation_method<'s>(
     generic_idents: &'s GenericIdents,
     attr: &'s EntraitTraitAttr,
     contains_async: ContainsAsync,
+    trait_with_arguments: TokenStream,
 ) -> DelegatingMethod<'s> {
     // The delegating method needs an identifier for every parameter, also where
     // the trait method declares a pattern (`_: T`, `(a, b): T`).
@@ -322,6 +331,12 @@ fn gen_delegation_method<'s>(
         })
         .collect();
     let core = &generic_idents.crate_idents.core;
+    let entrait = &generic_idents.crate_idents.entrait;
+    // The `&T` inside `&Impl<T>`. By path: method syntax (`self.as_ref()`) is at the mercy of the traits that are in scope
+    // where the macro is invoked, and of the entraited trait's own method names
+    let inner_ref = quote! {
+        <::#entrait::Impl<#impl_t> as ::#core::convert::AsRef<#impl_t>>::as_ref(self)
+    };
 
     let call = match (&attr.impl_trait, &attr.delegation_kind) {
         (Some(ImplTrait(_, impl_trait_ident)), Some(SpanOpt(Delegate::ByTrait(_), _))) => {
@@ -355,10 +370,12 @@ fn gen_delegation_method<'s>(
             call
         }
         (None, Some(SpanOpt(Delegate::ByRef(RefDelegate::AsRef), _))) => quote! {
-            self.as_ref().as_ref().#fn_ident(#(#arguments),*)
+            <#impl_t as ::#core::convert::AsRef<dyn #trait_with_arguments>>::as_ref(#inner_ref)
+                .#fn_ident(#(#arguments),*)
         },
         (None, Some(SpanOpt(Delegate::ByRef(RefDelegate::Borrow), _))) => quote! {
-            self.as_ref().borrow().#fn_ident(#(#arguments),*)
+            <#impl_t as ::#core::borrow::Borrow<dyn #trait_with_arguments>>::borrow(#inner_ref)
+                .#fn_ident(#(#arguments),*)
         },
         _ => {
             // `self` / `mut self` / `self: Self` (but not `self: &Self`, which has no `reference` either)
@@ -372,11 +389,11 @@ fn gen_delegation_method<'s>(
             if takes_self_by_value {
                 // `self.as_ref()` would have to move out of a reference
                 quote! {
-                    self.into_inner().#fn_ident(#(#arguments),*)
+                    ::#entrait::Impl::<#impl_t>::into_inner(self).#fn_ident(#(#arguments),*)
                 }
             } else {
                 quote! {
-                    self.as_ref().#fn_ident(#(#arguments),*)
+                    #inner_ref.#fn_ident(#(#arguments),*)
                 }
             }
         }
